@@ -167,6 +167,9 @@ pub(crate) fn codes(tier: Tier) -> Vec<u8> {
 pub(crate) const B58: [[u8; 4]; 3] = [[0, 0, 0, 0], [0xff, 0xff, 0xff, 0xff], [1, 2, 3, 4]];
 
 impl Check for C17 {
+    fn quick_is_thorough(&self) -> bool {
+        true
+    }
     fn id(&self) -> &'static str {
         "C17"
     }
